@@ -711,6 +711,111 @@ template <int EI> void image_equality_case() {
     vh::evals(g_evals - e0); vh::distinct(NSHAPES * NSHAPES);
 }
 
+// ---- storage geometry of owning any_images: every mutating operation against its concrete counterpart ----
+// The variant and a concrete image are taken in lockstep through construction, recreate (dimensions kept /
+// alignment changed and vice versa, both overloads, default alignment), copy and assignment; after each step the
+// held image must have the concrete one's dimensions, row pitch (view.pixels().row_size()), row and plane offsets
+// from the first pixel, and the same residues of every row address modulo the requested alignment.
+#if C14_PART == 11
+struct Geo {
+    int index; std::ptrdiff_t w, h, row_size; std::vector<std::ptrdiff_t> offs; std::vector<unsigned> mod;
+    Geo() : index(-1), w(-1), h(-1), row_size(-1) {}
+};
+struct geo_fn {
+    typedef void result_type;
+    Geo* g; unsigned align;
+    template <class V> void operator()(V const& v) const {
+        g->w = v.width(); g->h = v.height(); g->row_size = (std::ptrdiff_t)v.pixels().row_size();
+        if (v.width() * v.height() == 0) return;
+        std::vector<const void*> a;
+        for (std::ptrdiff_t y = 0; y < v.height(); ++y) { typename V::reference ref = v(0, y); gil::static_for_each(ref, addr_rec{&a}); }
+        for (const void* p : a) {
+            g->offs.push_back((const char*)p - (const char*)a[0]);
+            g->mod.push_back((unsigned)((uintptr_t)p % (align ? align : 1)));
+        }
+    }
+};
+template <int I> struct geometry_check {
+    typedef typename ALT<I>::image_t image_t;
+    const char* an;
+    void cmp(const char* step, AI const& e, image_t const& ref, unsigned align, const std::string& what) {
+        Geo ge, gc;
+        ge.index = (int)e.index();
+        v2::visit(geo_fn{&ge, align}, gil::const_view(e));
+        geo_fn{&gc, align}(gil::const_view(ref));
+        g_evals += 5;
+        if (ge.index != I) { vh::viol(vh::cat("geometry.", step, ".index.", an), vh::cat("holds alternative ", ge.index, " after ", what)); return; }
+        if (ge.w != gc.w || ge.h != gc.h || e.width() != gc.w || e.height() != gc.h)
+            vh::viol(vh::cat("geometry.", step, ".dimensions.", an), vh::cat(ge.w, "x", ge.h, ", the concrete image is ", gc.w, "x", gc.h, " after ", what));
+        else if (ge.row_size != gc.row_size)
+            vh::viol(vh::cat("geometry.", step, ".row_size.", an), vh::cat("row pitch ", ge.row_size, " bytes, the concrete image's is ", gc.row_size, " after ", what));
+        else if (ge.offs != gc.offs)
+            vh::viol(vh::cat("geometry.", step, ".row-offsets.", an), vh::cat("row/plane offsets differ from the concrete image's after ", what));
+        else if (ge.mod != gc.mod)
+            vh::viol(vh::cat("geometry.", step, ".alignment.", an), vh::cat("row addresses modulo ", align, " differ from the concrete image's after ", what));
+    }
+    void run() {
+        an = ALT<I>::name();
+        if (!vh::begin_case("geometry", an)) return;
+        static const unsigned AL[] = {0, 1, 2, 4, 8, 16, 32};
+        vh::rng r = vh::case_rng();
+        uint64_t e0 = g_evals, nd = 0;
+        for (int wi = 0; wi < NSHAPES; ++wi) for (int hi = 0; hi < NSHAPES; ++hi) for (unsigned a0 : AL) {
+            int w = SHAPES[wi], h = SHAPES[hi];
+            int w2 = SHAPES[(wi + 1 + (int)r.below(NSHAPES - 1)) % NSHAPES], h2 = SHAPES[(hi + (int)r.below(NSHAPES)) % NSHAPES];
+            image_t first(w, h, a0);
+            AI e(first);
+            image_t ref(first);
+            cmp("construct", e, ref, a0, vh::cat("any_image(image(", w, ",", h, ",align ", a0, "))"));
+            unsigned cur = a0;
+            for (unsigned a1 : AL) {
+                ++nd;
+                // dimensions kept, alignment changed (a no-op only when a1 is the current alignment: then the pixels are kept)
+                fill_random(e, r);
+                ref = v2::get<image_t>(e);
+                std::vector<long> before = content(e);
+                e.recreate(gil::point<std::ptrdiff_t>(w, h), a1); ref.recreate(gil::point<std::ptrdiff_t>(w, h), a1);
+                cmp("recreate.same-dimensions", e, ref, a1, vh::cat("recreate((", w, ",", h, "), align ", a1, ") of a ", w, "x", h, " image of alignment ", cur));
+                if (a1 == cur) {
+                    ++g_evals;
+                    AI rc(ref);
+                    if ((content(e) == before) != (content(rc) == before)) vh::viol(vh::cat("geometry.recreate.no-op.content.", an), vh::cat("recreate with unchanged dimensions and alignment ", a1, ": pixels kept by the variant: ", content(e) == before, ", by the concrete image: ", content(rc) == before));
+                }
+                cur = a1;
+                // alignment kept, dimensions changed (x,y overload)
+                e.recreate(w2, h2, a1); ref.recreate(w2, h2, a1);
+                cmp("recreate.same-alignment", e, ref, a1, vh::cat("recreate(", w2, ",", h2, ", align ", a1, ") of a ", w, "x", h, " image of alignment ", a1));
+                // copies and assignments take the source's geometry
+                {
+                    AI b(e); image_t cb(ref);
+                    cmp("copy", b, cb, a1, vh::cat("copy of a ", w2, "x", h2, " image of alignment ", a1));
+                    AI c((typename ALT<(I + 1) % NALT>::image_t(2, 3, 16)));
+                    c = e;
+                    cmp("assign.other-type", c, cb, a1, vh::cat("assignment of a ", w2, "x", h2, " image of alignment ", a1, " over another alternative"));
+                    AI d((image_t(w, h, a0))); image_t cd(w, h, a0);
+                    d = e; cd = ref;
+                    cmp("assign.same-type", d, cd, a1, vh::cat("assignment of a ", w2, "x", h2, " image of alignment ", a1, " over a ", w, "x", h, " image of alignment ", a0));
+                    AI f; f = ref;
+                    cmp("assign.concrete", f, cb, a1, "assignment from a concrete image");
+                }
+                // back to the first dimensions with the default alignment of any_image::recreate (1)
+                e.recreate(w, h); ref.recreate(w, h, 1);
+                cmp("recreate.default-alignment", e, ref, 1, vh::cat("recreate(", w, ",", h, ") of a ", w2, "x", h2, " image of alignment ", a1));
+                cur = 1;
+                // and both changed
+                e.recreate(gil::point<std::ptrdiff_t>(w2, h), AL[(a1 + a0) % 7]); ref.recreate(gil::point<std::ptrdiff_t>(w2, h), AL[(a1 + a0) % 7]);
+                cur = AL[(a1 + a0) % 7];
+                cmp("recreate.both", e, ref, cur, vh::cat("recreate((", w2, ",", h, "), align ", cur, ")"));
+                e.recreate(w, h, cur); ref.recreate(w, h, cur);
+                cmp("recreate.same-alignment", e, ref, cur, vh::cat("recreate(", w, ",", h, ", align ", cur, ")"));
+            }
+        }
+        vh::evals(g_evals - e0); vh::distinct(nd);
+        vh::obs("geometry");
+    }
+};
+#endif
+
 int main(int argc, char** argv) {
     vh::init(argc, argv);
     init_shapes();
@@ -737,6 +842,8 @@ int main(int argc, char** argv) {
     binary_all<op_resample<0>, 0>(); binary_all<op_resample<1>, 0>();
 #elif C14_PART == 7
     binary_all<op_resample<1>, 1>(); binary_all<op_resample<1>, 2>();
+#elif C14_PART == 11
+    { auto f = [&](auto ic) { geometry_check<decltype(ic)::value> gc; gc.run(); }; AltLoop<0, NALT>::run(f); }
 #elif C14_PART == 8
     { auto f = [&](auto ic) { transposed_case<decltype(ic)::value>(); }; AltLoop<0, NALT>::run(f); }
 #elif C14_PART == 9
